@@ -307,7 +307,9 @@ class SetItem(ArrayExpr):
 
     @functools.cached_property
     def _meta(self):
-        meta = meta_from_array(self.array._meta, ndim=self.array.ndim)
+        # The assigned-to node may know its dtype although its meta could not
+        # be computed (e.g. a ufunc with an array ``where=`` mask).
+        meta = meta_from_array(self.array._meta, ndim=self.array.ndim, dtype=self.array.dtype)
         if np.isscalar(meta):
             meta = np.array(meta)
         return meta
